@@ -545,6 +545,11 @@ func clampOwnWindow(sc *Scenario) {
 		if h.DelayUs > lim {
 			h.DelayUs %= lim + 1
 		}
+		// the second answer of a "both" hop is the first accepted one when the target's own answer is of a kind the
+		// driver has no use for (an unreachable for a SYN): it has to be inside the window as well
+		if h.BothDelayUs > lim {
+			h.BothDelayUs %= lim + 1
+		}
 		return h
 	}
 	sc.Script.Default = fix(sc.Script.Default)
